@@ -11,7 +11,8 @@ TW == <<"12:00:00", "13:00:00">>
 
 \* ---- single-trigger variants: each is a function from a base rule to a rule ----------------
 VScheme(b) == {[b EXCEPT !.scheme = s] : s \in {"http", "https"}}
-VHost(b) == {[b EXCEPT !.host = h] : h \in {<<"static", "example.com">>, <<"static", "Example.COM">>, <<"static", "other.org">>, <<"dyn", "@sub.example.com">>}}
+\* ("ab.example.com" is also accepted by the dynamic host: a literal-host rule and a pattern-host rule for the same host)
+VHost(b) == {[b EXCEPT !.host = h] : h \in {<<"static", "example.com">>, <<"static", "Example.COM">>, <<"static", "other.org">>, <<"static", "ab.example.com">>, <<"dyn", "@sub.example.com">>}}
 VIps(b) == {[b EXCEPT !.ips = i] : i \in { <<<<"in", "10.0.0.0/8">>>>, <<<<"in", "10.1.0.0/16">>>>, <<<<"not_in", "10.1.0.0/16">>>>,
                                             <<<<"in", "10.0.0.0/8">>, <<"in", "10.1.0.0/16">>>>, <<<<"in", "10.1.0.0/16">>, <<"not_in", "10.0.0.0/8">>>>,
                                             <<<<"in", "::/0">>>> }}
@@ -44,6 +45,7 @@ Combos(b) == {
 PoolFull == Singles(Base("r1")) \cup Singles(Base("r2")) \cup Combos(Base("r1")) \cup Combos(Base("r2")) \cup Combos(Base("r3")) \cup {Base("r3")}
 \* quick: a covering sub-pool
 QuickPick(b) == {b, [b EXCEPT !.scheme = "https"], [b EXCEPT !.host = <<"static", "Example.COM">>], [b EXCEPT !.host = <<"dyn", "@sub.example.com">>],
+                 [b EXCEPT !.host = <<"static", "ab.example.com">>, !.path = <<"static", "/b">>],
                  [b EXCEPT !.ips = <<<<"in", "10.0.0.0/8">>, <<"in", "10.1.0.0/16">>>>], [b EXCEPT !.ips = <<<<"not_in", "10.1.0.0/16">>>>],
                  [b EXCEPT !.methods = <<"GET", "POST">>, !.excl = TRUE], [b EXCEPT !.methods = <<"POST">>],
                  [b EXCEPT !.hdrs = <<H("X-K", "is_not_equal_to", "v")>>], [b EXCEPT !.hdrs = <<H("X-K", "contains", "v"), H("X-J", "is_not_defined", "")>>],
